@@ -1,4 +1,5 @@
 import EupsModel.Lemmas.VersionMatch
+import EupsModel.Lemmas.VersionAcross
 import EupsModel.Lemmas.VersionLex
 /-! C10 — version names are ordered consistently: property theorems.
 
@@ -382,6 +383,158 @@ theorem C10_latest_db_is_max (stacks : List (List Str))
       rw [e] at this; simp at this
   obtain ⟨i, v, h1, h2, h3⟩ := C10_latest_across_is_max (stacks.map dbOrder) hconv' hne'
   exact ⟨i, v, h1, (mem_flatten_dbOrder v stacks).mp h2, fun w hw => h3 w ((mem_flatten_dbOrder w stacks).mpr hw)⟩
+
+/-! ## latest: the sort, the minimum version -/
+
+/-- **`vers.sort(key=cmp_to_key(version_cmp)); vers[-1]`** (Eups.py, `_selectPreferredProduct` and the cache
+branch of `_findLatestProduct`): whatever list `s` the sort returns — a permutation of the names, ordered by
+the comparator, names that compare equal in their original relative order (stability) — its last element is
+the name the model's one-pass selection returns.  Together with `C10_latest_is_max`: the last element of the
+sorted list is a maximum, for every list of conventional names. -/
+theorem C10_latest_is_last_of_sort (names s : List Str) (hne : names ≠ []) (hconv : ∀ v ∈ names, convName v = true)
+    (hperm : s.Perm names)
+    (hsorted : s.Pairwise (fun a b => ∃ r, stdCompare false a b = .ok r ∧ r ≤ 0))
+    (hstable : ∀ m ∈ names, s.filter (fun y => decide (stdCompare false y m = .ok 0)) =
+      names.filter (fun y => decide (stdCompare false y m = .ok 0))) :
+    ∃ i v, latest names = .ok (some i) ∧ s.getLast? = some v ∧ names[i]? = some v ∧ ∀ j, j < i → names[j]? ≠ some v := by
+  obtain ⟨ps, hps, hc⟩ := lexPairs_of_conv hconv
+  obtain ⟨hmap, hlex⟩ := lexPairs_spec hps
+  have hpne : ps ≠ [] := by
+    intro e; subst e; simp at hmap; exact hne hmap
+  obtain ⟨m, hm, hmem, hmax⟩ := lastMax_none_spec ps hpne hc
+  have hv : m.1 ∈ names := by rw [← hmap]; exact List.mem_map_of_mem hmem
+  obtain ⟨hget, hfirst⟩ := findIdx_beq_spec names m.1 hv
+  have hacc : ∀ v ∈ names, ∃ l, lex v = .ok l := fun v h => convName_accepted (hconv v h)
+  have hps' := lexPairs_eq_map hps
+  have hm2 : m.2 = lexOr m.1 := by
+    rw [hps'] at hmem
+    obtain ⟨v, _, rfl⟩ := List.mem_map.mp hmem
+    rfl
+  have hlast : (s.map (fun v => (v, lexOr v))).getLast? = some m := by
+    apply getLast_stableSort ps _ m hm hc
+    · rw [hps']; exact hperm.map _
+    · rw [List.pairwise_map]
+      refine hsorted.imp_of_mem ?_
+      intro a b ha hb ⟨r, hr, hle⟩
+      rw [stdCompare_lexOr (hacc a (hperm.subset ha)) (hacc b (hperm.subset hb))] at hr
+      cases hr; exact hle
+    · rw [hps', List.filter_map, List.filter_map, hm2]
+      have hfil : ∀ l : List Str, (∀ y ∈ l, y ∈ names) →
+          l.filter ((fun y : Str × Lexed => cmpSort y.2 (lexOr m.1) == 0) ∘ fun v => (v, lexOr v)) =
+          l.filter (fun y => decide (stdCompare false y m.1 = .ok 0)) := by
+        intro l hl
+        apply List.filter_congr
+        intro y hy
+        rw [stdCompare_lexOr (hacc y (hl y hy)) (hacc m.1 hv)]
+        simp only [Function.comp, Except.ok.injEq]
+        by_cases hz : cmpSort (lexOr y) (lexOr m.1) = 0 <;> simp [hz]
+      rw [hfil s (fun y hy => hperm.subset hy), hfil names (fun y hy => hy), hstable m.1 hv]
+  rw [List.getLast?_map] at hlast
+  cases hs : s.getLast? with
+  | none => simp [hs] at hlast
+  | some v =>
+    simp only [hs, Option.map_some, Option.some.injEq] at hlast
+    have : v = m.1 := by rw [← hlast]
+    subst this
+    exact ⟨names.findIdx (· == m.1), m.1, by simp only [latest, hps, hm], rfl, hget, hfirst⟩
+
+/-- **`_findLatestProduct(…, minver)`**: from stacks of conventional versions and a conventional minimum,
+nothing is returned exactly when every declared version is below the minimum; otherwise the version
+returned is declared, reaches the minimum, and no declared version exceeds it. -/
+theorem C10_latest_minver (stacks : List (List Str)) (mv : Str)
+    (hconv : ∀ st ∈ stacks, ∀ v ∈ st, convName v = true) (hmv : convName mv = true) :
+    (latestAcrossMin (some mv) stacks = .ok none ∧
+        ∀ w ∈ stacks.flatten, ∃ r, stdCompare false w mv = .ok r ∧ r < 0) ∨
+    (∃ i v, latestAcrossMin (some mv) stacks = .ok (some (i, v)) ∧ v ∈ stacks.flatten ∧
+        (∃ r, stdCompare false v mv = .ok r ∧ r ≥ 0) ∧
+        ∀ w ∈ stacks.flatten, ∃ r, stdCompare false w v = .ok r ∧ r ≤ 0) := by
+  obtain ⟨lm, hlm, hcm⟩ := convName_lex hmv
+  obtain ⟨out, hgo, hinv⟩ := latestAcrossGo_spec_min (some mv) (some lm) hlm
+    (by intro l hl; cases hl; exact hcm) stacks 0 none [] hconv (by simp [AcrossInvMin])
+  simp only [List.nil_append] at hinv
+  cases out with
+  | none =>
+    refine Or.inl ⟨by simp only [latestAcrossMin, hgo], ?_⟩
+    intro w hw
+    obtain ⟨lw, h1, _, h3⟩ := hinv w hw
+    exact ⟨cmpSort lw lm, by simp [stdCompare, h1, hlm, cmpLexed], h3⟩
+  | some o =>
+    obtain ⟨i, v, lv⟩ := o
+    obtain ⟨hv, _, hmem, hnb, hall⟩ := hinv
+    refine Or.inr ⟨i, v, by simp only [latestAcrossMin, hgo], hmem, ?_, ?_⟩
+    · refine ⟨cmpSort lv lm, by simp [stdCompare, hv, hlm, cmpLexed], ?_⟩
+      simp only [BelowMin] at hnb; omega
+    · intro w hw
+      obtain ⟨lw, h1, _, h3⟩ := hall w hw
+      exact ⟨cmpSort lw lv, by simp [stdCompare, h1, hv, cmpLexed], h3⟩
+
+/-- … the same through the database branch (every stack enumerated in string order). -/
+theorem C10_latest_minver_db (stacks : List (List Str)) (mv : Str)
+    (hconv : ∀ st ∈ stacks, ∀ v ∈ st, convName v = true) (hmv : convName mv = true) :
+    (latestAcrossMin (some mv) (stacks.map dbOrder) = .ok none ∧
+        ∀ w ∈ stacks.flatten, ∃ r, stdCompare false w mv = .ok r ∧ r < 0) ∨
+    (∃ i v, latestAcrossMin (some mv) (stacks.map dbOrder) = .ok (some (i, v)) ∧ v ∈ stacks.flatten ∧
+        (∃ r, stdCompare false v mv = .ok r ∧ r ≥ 0) ∧
+        ∀ w ∈ stacks.flatten, ∃ r, stdCompare false w v = .ok r ∧ r ≤ 0) := by
+  have hconv' : ∀ st ∈ stacks.map dbOrder, ∀ v ∈ st, convName v = true := by
+    intro st hst v hv
+    obtain ⟨st0, h0, rfl⟩ := List.mem_map.mp hst
+    exact hconv st0 h0 v ((mem_dbOrder v st0).mp hv)
+  rcases C10_latest_minver (stacks.map dbOrder) mv hconv' hmv with ⟨h1, h2⟩ | ⟨i, v, h1, h2, h3, h4⟩
+  · exact Or.inl ⟨h1, fun w hw => h2 w ((mem_flatten_dbOrder w stacks).mpr hw)⟩
+  · exact Or.inr ⟨i, v, h1, (mem_flatten_dbOrder v stacks).mp h2, h3,
+      fun w hw => h4 w ((mem_flatten_dbOrder w stacks).mpr hw)⟩
+
+/-! ## relational requests through the stacks -/
+
+/-- **`_findProductsByExpr`**: when the request can be evaluated against every declared version, the
+products returned are exactly the declared versions that match it; a version string is reported once, from
+the first stack (in path order) that declares it. -/
+theorem C10_matches_across (expr : Str) (stacks : List (List Str))
+    (hok : ∀ st ∈ stacks, ∀ v ∈ st, ∃ b, versionMatch v expr = .ok b) :
+    ∃ ms, matchesAcross expr stacks = .ok ms ∧ (ms.map Prod.snd).Nodup ∧
+      (∀ v, v ∈ ms.map Prod.snd ↔ v ∈ stacks.flatten ∧ versionMatch v expr = .ok true) ∧
+      ∀ p ∈ ms, ∃ st, stacks[p.1]? = some st ∧ p.2 ∈ st ∧ ∀ j st', j < p.1 → stacks[j]? = some st' → p.2 ∉ st' := by
+  obtain ⟨ms, hgo, h1, h2, h3⟩ := matchesAcrossGo_spec expr stacks [] [] hok (by simp [MatchInv])
+  simp only [List.nil_append, List.length_nil] at hgo h1 h2
+  refine ⟨ms, hgo, h3, ?_, ?_⟩
+  · intro v
+    constructor
+    · intro hv
+      obtain ⟨p, hp, rfl⟩ := List.mem_map.mp hv
+      obtain ⟨hm, st, hst, hmem, _⟩ := h1 p hp
+      exact ⟨List.mem_flatten.mpr ⟨st, List.mem_of_getElem? hst, hmem⟩, hm⟩
+    · rintro ⟨hv, hm⟩
+      obtain ⟨st, hst, hvst⟩ := List.mem_flatten.mp hv
+      exact h2 st hst v hvst hm
+  · intro p hp
+    exact (h1 p hp).2
+
+/-- On an `||` chain whose comparisons are defined for every declared version: the versions returned are
+exactly those the order puts in one of the stated relations. -/
+theorem C10_matches_across_iff (t : Term) (ts : List Term) (stacks : List (List Str))
+    (hwf : ∀ y ∈ t :: ts, WfTerm y)
+    (hcmp : ∀ st ∈ stacks, ∀ v ∈ st, ∀ y ∈ t :: ts, ∃ r, stdCompare true v y.2 = .ok r) :
+    ∃ ms, matchesAcross (render t ts) stacks = .ok ms ∧
+      ∀ v, v ∈ ms.map Prod.snd ↔ v ∈ stacks.flatten ∧ ∃ y ∈ t :: ts, ∃ r, stdCompare true v y.2 = .ok r ∧ relSem y.1 r := by
+  obtain ⟨ms, h1, _, h3, _⟩ := C10_matches_across (render t ts) stacks
+    (fun st hst v hv => C10_match_total v t ts hwf (hcmp st hst v hv))
+  refine ⟨ms, h1, ?_⟩
+  intro v
+  rw [h3 v]
+  constructor
+  · rintro ⟨hv, hm⟩
+    obtain ⟨st, hst, hvst⟩ := List.mem_flatten.mp hv
+    exact ⟨hv, (C10_match_iff v t ts hwf (hcmp st hst v hvst)).mp hm⟩
+  · rintro ⟨hv, hm⟩
+    obtain ⟨st, hst, hvst⟩ := List.mem_flatten.mp hv
+    exact ⟨hv, (C10_match_iff v t ts hwf (hcmp st hst v hvst)).mpr hm⟩
+
+/-! non-vacuity -/
+example : latestAcrossMin (some n_1d10) [[n_1d9, n_1d2], [n_1d2d0]] = .ok none := by decide
+example : latestAcrossMin (some n_1d9) [[n_1d9, n_1d2], [n_1d10, n_1d2d0]] = .ok (some (1, n_1d10)) := by decide
+example : matchesAcross (render (opGe, n_1d9) []) [[n_1d9, n_1d2], [n_1d10, n_1d9]] = .ok [(0, n_1d9), (1, n_1d10)] := by decide
+example : [n_1d2, n_1d9, n_1d10].Perm [n_1d9, n_1d10, n_1d2] := by decide
 
 /-! non-vacuity: a chain, its rendering, the loop's answer; a list and its latest member -/
 example : render (opGe, n_1d2) [(opLt, n_1d10)] = [62, 61, 32, 49, 46, 50, 32, 124, 124, 32, 60, 32, 49, 46, 49, 48] := by decide
